@@ -32,7 +32,7 @@ type c03Scn struct {
 var c03Ignorable = []string{"raw", "sack-beyond", "sack-gap0", "sack-gap-inverted", "sack-gap-outside", "fwd-stale", "unknown-chunk",
 	"initack", "cookieack", "cookieecho-bad", "init-established", "shutack", "shutcomp", "hback", "hb", "error", "data-dup", "data-beyond",
 	"badlen-short", "badlen-long", "init-badparam", "reconf-unknown-resp", "sack-old", "empty-packet", "abort-bad-checksum", "data-nodata",
-	"sack-far", "fwd-far", "data-far", "sack-gap-multi",
+	"sack-far", "fwd-far", "data-far", "sack-gap-multi", "data-window-edge", "data-window-edge",
 	"wrong-kind"} // (a chunk of the framing that was not negotiated: dropped with an ABORT, or not at all)
 var c03Forgeries = []string{"mutate", "sack-valid", "fwd-ahead", "data-new", "shutdown", "reconf-reset", "abort", "fwd-half"}
 
@@ -289,6 +289,16 @@ func c03Craft(s *vfSim, in *c03Inj, wire []vfWireEv) []byte {
 		return mk(wChunk{Type: dataT, TSN: pk.PeerLast - uint32(in.A%20), SID: uint16(in.B % 6), SSN: uint16(in.C), MID: uint32(in.C), PPI: 53, B: true, E: true, Data: []byte("dup-forgery")})
 	case "data-beyond":
 		return mk(wChunk{Type: dataT, TSN: pk.PeerLast + 50000 + uint32(in.A), SID: uint16(in.B % 6), SSN: uint16(in.C), MID: uint32(in.C), PPI: 53, B: true, E: true, Data: []byte("far")})
+	case "data-window-edge":
+		// just beyond the receive window (the number of TSNs above the cumulative TSN that the
+		// receiver tracks for its buffer size): the first TSNs outside, or anywhere in the next
+		// window's worth; such a chunk can never be acknowledged and has to be dropped
+		w := vfWindowFor(s.sc.Cfg[in.To].RBuf)
+		off := w + 1 + uint32(in.A)%w
+		if in.B%3 == 0 {
+			off = w + 1 + uint32(in.A%3)
+		}
+		return mk(wChunk{Type: dataT, TSN: pk.PeerLast + off, SID: uint16(in.B % 6), SSN: uint16(in.C), MID: uint32(in.C), PPI: 53, B: true, E: true, Data: []byte("beyond-the-window")})
 	case "data-nodata":
 		return mk(wChunk{Type: dataT, TSN: pk.PeerLast - uint32(in.A%5), SID: uint16(in.B % 6), PPI: 53, B: true, E: true})
 	case "data-new":
